@@ -332,7 +332,7 @@ func (ex *Exec) frameRelation(mods []modSpec, name string, cur *Term, r, k *Term
 				}
 			}
 		}
-		return And(ULt(r, entry.Alloc), Not(Or(covered...))), Eq(Select(Select(cur, r), k), Select(Select(old, r), k)), true
+		return And(preExistingArray(r, entry.Alloc), Not(Or(covered...))), Eq(Select(Select(cur, r), k), Select(Select(old, r), k)), true
 	case "M":
 		for _, m := range mods {
 			if m.kind == "mapfamily" && strings.HasPrefix(name, m.fam+"|") {
@@ -355,6 +355,13 @@ func (ex *Exec) frameRelation(mods []modSpec, name string, cur *Term, r, k *Term
 		return True, Eq(cur, old), false
 	}
 	return False, True, false
+}
+
+// preExistingArray: r is a backing array that existed at entry — an allocated array below
+// the entry allocation counter, or the embedded array field of an object that existed then.
+func preExistingArray(r, alloc0 *Term) *Term {
+	emb := And(ULe(BVu(0x80000000, 32), r), ULt(BAnd(r, BVu(0x00ffffff, 32)), alloc0))
+	return Or(ULt(r, alloc0), emb)
 }
 
 func modsEverything(mods []modSpec) bool {
@@ -439,7 +446,7 @@ func (ex *Exec) assumeLoopFrame(st *State, name string, cur *Term) {
 					}
 				}
 			}
-			return Implies(And(ULt(r, entry.Alloc), Not(Or(mentioned...))), Eq(Select(cur, r), Select(old, r)))
+			return Implies(And(preExistingArray(r, entry.Alloc), Not(Or(mentioned...))), Eq(Select(cur, r), Select(old, r)))
 		}})
 		for _, m := range mods {
 			var arr *Term
